@@ -181,7 +181,9 @@ func (st *state) run(line string) string {
 			return "bad-op"
 		}
 		c08x.SetMagic(m)
-		return "ok"
+		// T-observable: the threshold as read back through the hook (a no-op setter would silently collapse the
+		// dense/sparse branch coverage — results do not depend on the threshold)
+		return fmt.Sprintf("magic=%d", bitmap1024.VerifSparseMagic())
 	case f[0] == "w" && len(f) == 2:
 		v, ok := c08x.ParseHex64(f[1])
 		if !ok {
@@ -413,6 +415,7 @@ func (st *state) run(line string) string {
 			want[i] = !ref[i]
 		}
 		st.checkReg("Bit1024.Reverse", d, &want)
+		st.checkReg("Bit1024.Reverse:operand-changed", b, ref)
 		return c08x.ShowMap(d)
 	case f[0] == "eq" && len(f) == 1:
 		e := st.a.Equal(st.b)
@@ -1137,6 +1140,9 @@ func fixedCases() []corr.Case {
 	return cs
 }
 
+// tOnly: the echo of the threshold read back through the hook is an internal observable
+func tOnly(line string) bool { return strings.HasPrefix(line, "magic ") }
+
 func spec() corr.Spec {
 	return corr.Spec{
 		Property: "C08",
@@ -1178,7 +1184,8 @@ func spec() corr.Spec {
 				return genMalformed(r)
 			}
 		},
-		Run: runCase,
+		Run:   runCase,
+		TOnly: tOnly,
 		NonTrivial: func(c corr.Case, res corr.Result) bool {
 			// at least one iterator call that wrote something, or a mutation of a bitmap
 			for i, l := range c.Lines {
